@@ -687,6 +687,8 @@ func (w *watcher) feed() {
 				return
 			}
 		}
+		// (hold point: a notification on its way to this client can be held back by a breakpoint)
+		w.c.atPhase("Deliver", "site")
 		var out leader.Entry
 		e := Event{Kind: "watch.deliver", Inst: w.c.name, Key: w.key}
 		if ev.ent != nil {
